@@ -1830,6 +1830,11 @@ fn eval_in_negated_list(left: &Value, items: &[Value]) -> Value {
           return Value::Boolean(false);
         }
       }
+      inner @ Value::Range(_, _, _, _) => {
+        if let Value::Boolean(true) = eval_in_range(left, inner) {
+          return Value::Boolean(false);
+        }
+      }
       _ => return value_null!("eval_in_negated_list"),
     }
   }
